@@ -201,6 +201,17 @@ func (r *checkRun) run() int {
 			all = append(all, obs...)
 		}
 	}
+	for _, gi := range r.contracts.Globals {
+		if hasTag(gi.Tags, r.prop) && r.prog != nil {
+			obs, gerr := VerifyGlobalInit(r.prog, r.contracts, gi)
+			if gerr != "" {
+				fmt.Println("global invariant outside reach:", gi.Name, gerr)
+				continue
+			}
+			r.lemmaObs = append(r.lemmaObs, obs...)
+			all = append(all, obs...)
+		}
+	}
 	SolveAll(all, r.smtDir, r.timeout, r.workers)
 
 	if r.update {
